@@ -243,6 +243,10 @@ pub async fn run_conc(cfg: RunCfg) -> RunResult {
             if r.cfg.prop == "C24" {
                 r.o_index_diff(10).await;
             }
+            if r.cfg.prop == "C18" {
+                r.o_rowids("concurrent-round").await;
+                r.o_take("concurrent-round").await;
+            }
             r.o_time_travel(3).await;
         })
         .await;
@@ -396,6 +400,13 @@ async fn check_round(r: &mut Runner, base_v: u64, outcomes: &[PartyOutcome], fau
                     r.res.probe("committed-but-reported-error");
                     if let Some(a) = who.strip_prefix('a').and_then(|s| s.split(' ').next()).and_then(|s| s.parse::<u32>().ok()) {
                         used_fallback.insert(a);
+                    }
+                }
+                if let Some(o) = claimed.get(&v) {
+                    r.lin.apply(&o.op, &cur, &stt, v);
+                } else if who.contains("reported failure") {
+                    if let Some(o) = outcomes.iter().find(|o| who.starts_with(&format!("a{} ", o.actor))) {
+                        r.lin.apply(&o.op, &cur, &stt, v);
                     }
                 }
                 cur = stt;
